@@ -37,6 +37,16 @@ func (w *world) apply(op kernel.Op) {
 				w.pairEnabled[strings.ToLower(p.ERC20Address)] = p.Enabled
 			}
 		})
+	case "regcoin2":
+		// two registrations of one denomination in the same voting window, with different metadata
+		d := baseDenoms[kernel.Mod(op.Arg(0), len(baseDenoms))]
+		for _, v := range []int64{op.Arg(1), op.Arg(2)} {
+			w.propose("regcoin:"+d, aggregatetypes.NewRegisterCoinProposal("t", "d", metadataFor(d, v)), func(w *world) {
+				if p, ok := w.pairByDenom(d); ok {
+					w.pairEnabled[strings.ToLower(p.ERC20Address)] = p.Enabled
+				}
+			})
+		}
 	case "addcoin":
 		d := baseDenoms[kernel.Mod(op.Arg(0), len(baseDenoms))]
 		ps := w.pairs()
@@ -44,6 +54,11 @@ func (w *world) apply(op kernel.Op) {
 			return
 		}
 		p := ps[kernel.Mod(op.Arg(2), len(ps))]
+		if op.Arg(2) < 0 {
+			if q, ok := w.pairByContract(w.ext[0]); ok {
+				p = q
+			}
+		}
 		w.propose("addcoin:"+d, aggregatetypes.NewAddCoinProposal("t", "d", metadataFor(d, op.Arg(1)), p.ERC20Address), nil)
 	case "regerc20":
 		e := w.ext[kernel.Mod(op.Arg(0), len(w.ext))]
@@ -70,6 +85,11 @@ func (w *world) apply(op kernel.Op) {
 			return
 		}
 		p := ps[kernel.Mod(op.Arg(0), len(ps))]
+		if op.Arg(0) < 0 {
+			if q, ok := w.pairByContract(w.ext[0]); ok {
+				p = q
+			}
+		}
 		ne := w.ext[kernel.Mod(op.Arg(1), len(w.ext))]
 		old := strings.ToLower(p.ERC20Address)
 		w.propose("upderc20", aggregatetypes.NewUpdateTokenPairERC20Proposal("t", "d", p.ERC20Address, ne.Hex()), func(w *world) {
@@ -243,6 +263,11 @@ func (w *world) opSuicide(op kernel.Op) {
 	w.c.Hook("suicide:" + p.ERC20Address)
 	w.c.EndBlockCommit()
 	w.suicided[strings.ToLower(p.ERC20Address)] = true
+	if w.c.Halted != "" {
+		w.rec.Violate("C15", "halt", haltWhere(w.c.Halted), "chain halted: %s", w.c.Halted)
+		return
+	}
+	w.afterBlock()
 	w.rec.Fault("exec.token_selfdestruct")
 	w.rec.Logf("contract %s self-destructed", p.ERC20Address)
 }
@@ -338,7 +363,8 @@ func (w *world) deliver(in *intent) {
 			if id, found := node.ProposalIDFromResult(res); found {
 				in.prop.id = id
 				w.props = append(w.props, in.prop)
-				w.mempool = append(w.mempool, &intent{kind: "govvote", signer: w.gov, msgs: []sdk.Msg{node.VoteYesMsg(id, w.gov)}, desc: fmt.Sprintf("vote %d", id)})
+				// the governance actor votes as soon as it sees the proposal: next in line
+				w.mempool = append([]*intent{{kind: "govvote", signer: w.gov, msgs: []sdk.Msg{node.VoteYesMsg(id, w.gov)}, desc: fmt.Sprintf("vote %d", id)}}, w.mempool...)
 			}
 		}
 	case "stake":
